@@ -167,11 +167,12 @@ static void ser_case(cbor_item_t* item, const char* desc) {
   if (b) set_hex(b, w);
   /* reload what was written, from an exactly-sized block */
   if (b && w) {
-    unsigned char* ex = malloc(w);
+    unsigned char* exblk;
+    unsigned char* ex = vh_exact_rot(w, &exblk);
     memcpy(ex, b, w);
     struct cbor_load_result r;
     cbor_item_t* back = cbor_load(ex, w, &r);
-    free(ex);
+    free(exblk);
     vh_kbool("reload_ok", back != NULL);
     vh_kint("reload_read", (long long)r.read);
     vt_ktree("reload", back);
@@ -240,10 +241,11 @@ int main(int argc, char** argv) {
       set_hex(buf, n);
       case_live0 = va.live;
       struct cbor_load_result r;
-      unsigned char* ex = malloc(n);
+      unsigned char* exblk;
+      unsigned char* ex = vh_exact_rot(n, &exblk);
       memcpy(ex, buf, n);
       cbor_item_t* it = cbor_load(ex, n, &r);
-      free(ex);
+      free(exblk);
       if (it) ser_case(it, "dec");
     }
   } else if (!strcmp(mode, "hex")) {
